@@ -10,7 +10,7 @@ M = [
  ("universe-not-windowed", "core.py", "            self._funiverse = self._universe.loc[: self.now]", "            self._funiverse = self._universe", "C04"),
  ("total-return-window-end+1d", "algos.py", "        prc = target.universe.loc[t0 - self.lookback : t0, selected]\n        target.temp[\"stat\"] = prc.calc_total_return()", "        prc = target._universe.loc[t0 - self.lookback : t0 + pd.DateOffset(days=1), selected]\n        target.temp[\"stat\"] = prc.calc_total_return()", "C04"),
  ("paper-notional-changed", "core.py", "            self._paper_amount = 1000000", "            self._paper_amount = 1000001", "C09"),
- ("paper-stepped-on-flows", "core.py", "            if newpt:\n                self._paper.update(date)\n                self._paper.run()", "            if newpt or self._net_flows != 0:\n                self._paper.update(date)\n                self._paper.run()", "C09"),
+ ("paper-stepped-on-flows", "core.py", "            if newpt:\n                self._paper.update(date)\n", "            if newpt or self._net_flows != 0:\n                self._paper.update(date)\n", "C09"),
  ("template-not-copied", "backtest.py", "        self.strategy = deepcopy(strategy)", "        self.strategy = strategy", "C11"),
  ("has-run-not-set", "backtest.py", "        self.has_run = True", "        self.has_run = False", "C11"),
  ("rebalance-delta-by-weight", "core.py", "            delta = weight * base - c.value\n            c.allocate(delta, update=update)", "            delta = weight - c.weight\n            c.allocate(delta * base, update=update)", "C06"),
